@@ -1,5 +1,5 @@
 (** C05 - Receiver is safe on arbitrary bus traffic (crash freedom and error funnel). *)
-From IsoTp Require Import Base.Prelude Model.Micro Spec.ConfigSpec Proofs.Inv Proofs.Events Proofs.NoCrash Proofs.FsmProps.
+From IsoTp Require Import Base.Prelude Model.Micro Spec.ConfigSpec Proofs.Inv Proofs.Events Proofs.NoCrash Proofs.FsmProps Proofs.JustifiedP.
 
 (** process() never raises: for every reachable state, every inbox content (any identifiers,
     lengths, bytes), every flag combination and fuel, the outcome is not a crash. *)
@@ -16,6 +16,27 @@ Proof. exact process_rx_evs. Qed.
 Theorem C05_invariant : forall c ms s, WF c s -> WF c (fst (mrun c s ms)).
 Proof. intros c ms s. exact (WF_mrun c ms s). Qed.
 
+(** Justification of deliveries.  [justified c fs p] (Proofs/JustifiedP.v): [p] is the data of the single
+    Single Frame [fs], or [fs] = a First Frame followed by Consecutive Frames with sequence numbers
+    1, 2, ... (mod 16) and [p] = First Frame data ++ their data, the last one cut at the announced
+    length, at least as long as announced.  [Ginv] ties the ghost list [G] (frames behind the
+    reception in progress) to the receiver state.  One frame through _process_rx keeps the tie and
+    appends at most one payload, which is justified by [gsource c G f]: *)
+Theorem C05_justified_step : forall c s G f, Ginv c s G ->
+  let s' := rr_s (process_rx c s f) in
+  Ginv c s' (gnext c s G f) /\
+  (rx_queue s' = rx_queue s \/
+   exists p, rx_queue s' = rx_queue s ++ [p] /\ justified c (gsource c G f) p).
+Proof. exact jstep. Qed.
+
+(** ... hence along EVERY run of micro-steps from the initial state (any frames - garbage, foreign,
+    truncated, duplicated, reordered -, any schedule, any timeouts) every delivery is justified. *)
+Theorem C05_justified_run : forall c t0 ms,
+  Forall (fun d => justified c (fst d) (snd d)) (jrun c (init_layer c t0) [] ms).
+Proof. exact justified_from_init. Qed.
+
 Print Assumptions C05_never_raises.
 Print Assumptions C05_rx_errors_only.
 Print Assumptions C05_invariant.
+Print Assumptions C05_justified_step.
+Print Assumptions C05_justified_run.
